@@ -358,8 +358,20 @@ def rewrite_R12(text):
     return text
 
 def rewrite_R2(text):
-    text = re.sub(r"unsafe\s*\{\s*([A-Za-z_\.]+(?:\.as_ref\(\)\?)?)\s*\.get_mut\(\s*([^)]*?)\s*\)\s*\}", r"&\1.0[\2]", text)
-    text = re.sub(r"unsafe\s*\{\s*Some\(\s*([A-Za-z_\.]+)\s*\.get_mut\(\s*([^)]*?)\s*\)\s*\)\s*\}", r"Some(&\1.0[\2])", text)
+    # `PATH.get_mut(ARG)` -> `&PATH.0[ARG]` (ARG with balanced parentheses); the enclosing `unsafe { .. }` is removed by R18
+    out = []; i = 0
+    rx = re.compile(r"([A-Za-z_][A-Za-z0-9_\.]*?(?:\.as_ref\(\)\?)?)\s*\.get_mut\(")
+    while True:
+        m = rx.search(text, i)
+        if not m: out.append(text[i:]); break
+        j = m.end(); depth = 1
+        while j < len(text) and depth > 0:
+            if text[j] == "(": depth += 1
+            elif text[j] == ")": depth -= 1
+            j += 1
+        out.append(text[i:m.start()]); out.append("&%s.0[%s]" % (m.group(1), text[m.end():j - 1].strip()))
+        i = j
+    text = "".join(out)
     text = re.sub(r"&\s*('[a-z_]+\s+)?mut\s+(?!self\b)", lambda m: "&" + (m.group(1) or ""), text)
     text = text.replace(".as_mut()", ".as_ref()")
     text = text.replace("prefix_value_mut", "prefix_value")
